@@ -362,6 +362,19 @@ def report(out):
             rows.append((m, real, err))
     print(st)
     und = [(m, e) for m, f, e in rows if not f]
+
+    def likely_equivalent(m):
+        # identity vs equality on a singleton; cosmetic functions
+        if m["kind"] == "cmp" and {m["old"].strip(), m["new"].strip()} in (
+                {"is", "=="}, {"is not", "!="}):
+            return True
+        if m["func"] in ("__repr__", "__str__", "annotated", "dump") or \
+                m["file"].endswith(("config.py", "types.py")):
+            return True
+        return False
+    if "--all" not in sys.argv:
+        und = [(m, e) for m, e in und if not likely_equivalent(m)]
+        print("(likely-equivalent ones hidden: --all shows them)")
     print("survivors: %d, reported by some rule set: %d, analysis-error "
           "only: %d, silent: %d" % (
               len(rows), len([1 for m, f, e in rows if f]),
@@ -372,7 +385,8 @@ def report(out):
             m["id"], m["file"].replace("src/chameleon/", ""), m["line"],
             m["kind"], m["func"][:28],
             m["old"].replace("\n", "\\n")[:40],
-            m["new"].replace("\n", "\\n")[:40], "(AE)" if e else ""))
+            m["new"].replace("\n", "\\n")[:40], "(AE)" if e else ""),
+            flush=True)
 
 
 if __name__ == "__main__":
